@@ -299,6 +299,9 @@ pub struct Session {
     pub ty: usize,
     bus: Rc<RefCell<ScriptBus>>,
     sign: Sign,
+    /// controller objects come and go on a bus: a second one for this address was made and dropped again before the
+    /// session's own, and one for the foreign address lives as long as the session does
+    _stranger: Sign,
     pub history: Vec<String>,
 }
 
@@ -306,7 +309,8 @@ impl Session {
     /// Drops the `Sign` and returns whatever it sent to the bus on its way out (nothing, for a controller that only
     /// talks when asked to).
     pub fn finish(self) -> Vec<RefMsg> {
-        let Session { bus, sign, .. } = self;
+        let Session { bus, sign, _stranger, .. } = self;
+        drop(_stranger);
         {
             let mut b = bus.borrow_mut();
             b.log.clear();
@@ -353,7 +357,10 @@ impl Session {
     pub fn new(own: u16, foreign: u16, ty: usize) -> Session {
         let bus = Rc::new(RefCell::new(ScriptBus::new(alphabet(own, foreign), vec![], 0)));
         let sign = mk_sign(bus.clone(), own, ty);
-        Session { own, foreign, ty, bus, sign, history: vec![] }
+        let twin = mk_sign(bus.clone(), own, ty);
+        drop(twin);
+        let _stranger = mk_sign(bus.clone(), foreign, (ty + 1) % TYPES.len());
+        Session { own, foreign, ty, bus, sign, _stranger, history: vec![] }
     }
 
     /// `pick(depth, position)` chooses the reply symbol beyond the end of `script`.
